@@ -358,8 +358,11 @@ struct WkdRun {
     // the two interchangeable for everything that consumes a precomputed value.
     // how the caller wrote an order-free list down (see JAttrs): ascending half of the time
     uint64_t list_order(uint64_t salt) { uint64_t h = mix3((uint64_t) plan.c("setup_seed"), (uint64_t) env.step, salt); int k = (int) (h % 4); if (k >= 2) env.count(k == 2 ? "fault:list_written_in_descending_slot_order" : "fault:list_written_in_arbitrary_slot_order"); return k < 2 ? 0 : k == 2 ? 1 : 2 + (h >> 8) % 1000; }
+    // the omit-all switch concerns key derivation only; encrypt / precompute / sign / verify never look at it, so a list that carries it (a caller
+    // re-using the list object it derived a key with) must behave exactly like one that does not
+    bool idle_flag(uint64_t salt) { bool f = mix3((uint64_t) plan.c("setup_seed"), (uint64_t) env.step * 7 + 3, salt) % 4 == 0; if (f) env.count("fault:omit_all_switch_set_on_a_list_for_a_call_that_ignores_it"); return f; }
     void make_pre(Buf& pre, const std::vector<MAttr>& L) {
-        JAttrs ja(L, false, false, list_order(0x50)); env.lib_calls++;
+        JAttrs ja(L, idle_flag(0x60), false, list_order(0x50)); env.lib_calls++;
         int how = (int) ((env.lib_calls + (uint64_t) env.step) % 4);
         if (how == 0 || how == 2) { R.jv_wk_precompute(view, pre, sys.params, &ja.l); return; }
         std::vector<MAttr> from = L;
@@ -422,7 +425,7 @@ struct WkdRun {
 
     void op_enc(const Op& op) {
         KeyM* pk = pick_key(op.arg(1)); std::vector<Slot> pat = pk ? pk->pat : std::vector<Slot>((size_t) sys.l);
-        std::vector<MAttr> L = derive_list(pat, op.arg(2)); JAttrs ja(L, false, false, list_order(0x51));
+        std::vector<MAttr> L = derive_list(pat, op.arg(2)); JAttrs ja(L, idle_flag(0x61), false, list_order(0x51));
         CtM c; c.ct.alloc(R.sz(JV_SZ_WK_CT)); c.exps = exps_of_list(L, sys.l);
         uint64_t ss = (uint64_t) op.arg(0);
         call_begin(ss ^ 0x5555); R.jv_wk_random_gt(view, c.msg.b, jv_rand_cb);
@@ -493,7 +496,7 @@ struct WkdRun {
         sg.list = L; sg.msg = value_of_code(value_codes()[(size_t) op.arg(2) % value_codes().size()]);
         if (op.arg(2) >= 100) { uint8_t mb[32]; Rng r((uint64_t) op.arg(2)); r.fill(mb, 32); sg.msg = Bn::from_le(mb, 32); }
         uint8_t m32[32]; sg.msg.to_le(m32, 32);
-        JAttrs ja(L, false); sg.sig.alloc(R.sz(JV_SZ_WK_SIG));
+        JAttrs ja(L, idle_flag(0x63)); sg.sig.alloc(R.sz(JV_SZ_WK_SIG));
         uint64_t ss = (uint64_t) op.arg(0);
         std::vector<std::string> sf = trailing_faults(op, (size_t) sys.l);
         call_begin(ss, &sf); R.jv_wk_sign(view, sg.sig, sys.params, pk->sk, &ja.l, m32, jv_rand_cb);
@@ -530,7 +533,7 @@ struct WkdRun {
 
     // verify and verify_precomputed must agree on every signature (C14); returns the verdict
     bool verify_both(const std::vector<MAttr>& L, Buf& sig, const Bn& msg, const std::string& what) {
-        uint8_t m32[32]; msg.to_le(m32, 32); JAttrs ja(L, false, false, list_order(0x52));
+        uint8_t m32[32]; msg.to_le(m32, 32); JAttrs ja(L, idle_flag(0x62), false, list_order(0x52));
         env.lib_calls += 3;
         int v1 = R.jv_wk_verify(view, sys.params, &ja.l, sig, m32);
         Buf pre(R.sz(JV_SZ_WK_PRE)); make_pre(pre, L);
